@@ -71,10 +71,21 @@ def run_variant(args):
         out['status'] = 'skipped'
         out['detail'] = 'pattern no longer present'
         return out
+    more = []
+    for (f2, o2, n2) in v.get('more', ()):          # further edits of the same variant (two cooperating sites)
+        p2 = pathlib.Path(base_root) / f2
+        if not p2.exists() or p2.read_text().count(o2) < 1:
+            out['status'] = 'skipped'
+            out['detail'] = 'pattern of a further edit no longer present'
+            return out
+        more.append((f2, o2, n2))
     d = tempfile.mkdtemp(prefix='verif_selftest_')
     try:
         _copy_tree(base_root, d)
         (pathlib.Path(d) / v['file']).write_text(text.replace(v['old'], v['new'], 1))
+        for f2, o2, n2 in more:
+            q2 = pathlib.Path(d) / f2
+            q2.write_text(q2.read_text().replace(o2, n2, 1))
         for prop in v['props']:
             try:
                 base = violations_of(prop, base_root)
